@@ -67,7 +67,8 @@ def probe_fragments(inp: Dict[str, Any]) -> Dict[str, Any]:
         if abs(d) > 0.2 * env + 1e-9:
             bad.append(f"R={R}: |E_AB-E_A-E_B| = {abs(d):.3e} exceeds the multipole envelope {0.2*env:.2e}")
             kinds.add("energy")
-        if dF > 0.2 * env * (8.0 / R) + 2e-7:
+        # per-atom forces: partial charge x field of the other fragment's leading multipole (dipole: R^-3); only the NET fragment force falls off one power faster
+        if dF > 0.2 * env + 2e-7:
             bad.append(f"R={R}: fragment force differs from isolated by {dF:.3e}")
             kinds.add("force")
         if dq > 0.05 * env + 1e-7:
